@@ -67,3 +67,13 @@ Example c20_ex_neg : parse_field "-1" 1024 false = FName "-1". Proof. reflexivit
 Example c20_ex_above : parse_field "1025" 1024 false = FName "1025". Proof. reflexivity. Qed.
 Example c20_ex_numkeys : parse_field "5" 1024 true = FName "5". Proof. reflexivity. Qed.
 Example c20_ex_multi : parse_path "a.5" "." 1024 true false = [FName "a"; FIdx 5]. Proof. reflexivity. Qed.
+
+(* Every index the options allow has a spelling: the decimal text of i is read as the index i
+   (and as nothing else), and it is the text the index is printed with in paths. *)
+From Ucfg Require Import ProofsDec.
+Theorem c20_index_text_is_index : forall i maxIdx,
+  (0 <= i <= maxIdx)%Z -> (maxIdx < 9223372036854775808)%Z ->
+  parse_field (dec i) maxIdx false = FIdx i /\ field_str (FIdx i) = dec i.
+Proof. exact index_text_is_index. Qed.
+Print Assumptions c20_index_text_is_index.
+
